@@ -114,6 +114,18 @@ func profileByName(name string) Profile {
 		p.Txs = 16
 		p.Segs = []int{150, 200, 300}
 		p.Modes = []int{1}
+	case "mergezpos":
+		// sorted sets with many position-dependent removals (rank ranges, pops) and removals by key, so that
+		// whole segments die; Merge and reopen often (the scenario of fix 71d5512)
+		p.WKV, p.WList, p.WSet, p.WZSet = 1, 0, 0, 6
+		p.Buckets = []string{"z"}
+		p.Merge = 35
+		p.Reopen = 35
+		p.Txs = 18
+		p.OpsMin, p.OpsMax = 1, 2
+		p.Segs = []int{150, 200, 300}
+		p.Abort, p.Oversize, p.ReadOnly = 0, 0, 5
+		p.SmallRanks = true
 	case "mergelist":
 		p.WKV, p.WList, p.WSet, p.WZSet = 2, 3, 1, 1
 		p.Merge = 30
